@@ -76,6 +76,14 @@ CHECKS = {
             'use_spec accept every member and reject every one-step corruption; random_dna is executed for every choice '
             'sequence; Sweeping proposes the same sequence.',
             BASE_NOTE),
+    'C12': ('E2-enum', 'model_checking',
+            'bounded-exhaustive enumeration of specs x valid DNAs x view parameters, and of producer chains (incl. all random_dna choice sequences), each compared with a DNA rebuilt from raw numbers',
+            'Every view (flat / nested numbers, to_dict under all 90 parameter combinations, compact / verbose / string '
+            'JSON) of every valid DNA of every grammar spec (with and without names and literal values) is inverted with '
+            'the spec; lookups by decision point, id and name; every DNA produced by iteration, next_dna, random_dna, '
+            'parse, from_numbers, from_dict, from_json, clone and chains of two of them is aligned node by node with its '
+            'specification.',
+            BASE_NOTE),
     'C02': ('E1-statespace', 'model_checking',
             'explicit-state BFS to closure over the real pg.List/pg.Dict with a lock-step plain list/dict reference model',
             'Every (reachable content, operation) pair over the list/dict API menu with all indices/slices/steps within '
